@@ -569,16 +569,9 @@ theorem capNextQ_length (r : List ℝ) (P : List (List ℝ)) (n m : ℕ) (hP : I
   simp [outputLaw_length r P n m hP hn]
 
 theorem capNextQ_row_length (r : List ℝ) (P : List (List ℝ)) (n m : ℕ) (hr : r.length = n)
-    (hP : IsMat P n m) (y : ℕ) (hy : y < m) : ((capNextQ r P).getD y []).length = n := by
-  have hlen : (outputLaw r P).length = m := outputLaw_length r P n m hP (by
-    rcases Nat.eq_zero_or_pos n with h0 | h0
-    · exfalso
-      have hl := hP.len
-      rw [h0] at hl
-      have : P = [] := List.eq_nil_of_length_eq_zero hl
-      rw [this] at hlen_aux
-      exact hlen_aux
-    · exact h0)
+    (hP : IsMat P n m) (hn : 0 < n) (y : ℕ) (hy : y < m) :
+    ((capNextQ r P).getD y []).length = n := by
+  have hlen : (outputLaw r P).length = m := outputLaw_length r P n m hP hn
   unfold capNextQ
   simp only [hlen]
   rw [getD_range_map m _ [] y hy]
